@@ -1,0 +1,16 @@
+//go:build verif
+
+// Package verifhook holds the seams a deterministic simulator installs. It is
+// only compiled with the "verif" build tag; the shipped code never sees it.
+package verifhook
+
+// Yield, when set, is called by code under test immediately before it touches
+// state that other goroutines of the same component contend for. The simulator
+// parks the caller there and decides who goes first.
+var Yield func(point string, args ...string)
+
+// Session, when set, decides the order in which the logs of a group are
+// contacted (the shipped code derives it from randomised map iteration and
+// math/rand, which no seed controls). urls are the candidates in sorted order;
+// the result must be a permutation of them.
+var Session func(group string, urls []string) []string
